@@ -1,8 +1,172 @@
 import Vorbis.Header
-namespace Vorbis.Props.C02
-open Vorbis
+/-!
+# C02 — packet-level decoder is memory-safe and terminates on arbitrary input
 
-/-- placeholder; replaced by the real theorems below as they land -/
-theorem C02_ilog_zero : ilog 0 = 0 := by simp [ilog, ilogNat]
+The set-up parser model (`Vorbis/Setup.lean`) is *proof-carrying*: every unpacker returns its result
+together with the facts its checks establish, so the kernel has checked, for every byte string, that
+an accepted set-up satisfies `SetupWF` — the conjunction of the index facts the decoder relies on
+when it later indexes `book_param[]`, `floor_param[]`, `residue_param[]`, `map_param[]`,
+`mode_param[]`, the floor-1 class tables, the residue book lists and the channel arrays.
+All model functions are total (structural recursion or explicit fuel), which is the model-level
+termination statement. The model is tied to the C by stream `c02` (return codes and complete parse
+dumps on valid, boundary and malformed headers; packets under ASan/UBSan).
+-/
+namespace Vorbis.Props.C02
+open Vorbis Vorbis.Setup Vorbis.Header
+
+/-- **C02_setup_wf** — whatever bytes are offered as a set-up header, if the parser accepts them the
+result satisfies every table-index fact in `SetupWF` (for any channel count of the stream). -/
+theorem C02_setup_wf (channels : Int) (pkt : ByteArray) (s : Setup)
+    (h : parseSetup channels pkt = some s) : SetupWF channels s := by
+  unfold parseSetup at h
+  simp only at h
+  split at h
+  · rename_i sv _ _
+    simp only [Option.some.injEq] at h
+    subst h
+    exact sv.property
+  · simp at h
+
+/-- **C02_table_sizes** — the counts of an accepted set-up fit the fixed-size tables of
+`codec_setup_info` (sizes regenerated from `lib/codec_internal.h` on every run), and the floor-1
+post list fits `postlist[VIF_POSIT+2]`. -/
+theorem C02_table_sizes (channels : Int) (s : Setup) (h : SetupWF channels s) :
+    s.books.size ≤ Generated.CI_BOOK_PARAM_SIZE ∧
+    s.floors.size ≤ Generated.CI_FLOOR_PARAM_SIZE ∧ s.floors.size ≤ Generated.CI_FLOOR_TYPE_SIZE ∧
+    s.residues.size ≤ Generated.CI_RESIDUE_PARAM_SIZE ∧ s.residues.size ≤ Generated.CI_RESIDUE_TYPE_SIZE ∧
+    s.maps.size ≤ Generated.CI_MAP_PARAM_SIZE ∧ s.maps.size ≤ Generated.CI_MAP_TYPE_SIZE ∧
+    s.modes.size ≤ Generated.CI_MODE_PARAM_SIZE := by
+  have := h.nbooks; have := h.nfloors; have := h.nres; have := h.nmaps; have := h.nmodes
+  simp only [Generated.CI_BOOK_PARAM_SIZE, Generated.CI_FLOOR_PARAM_SIZE, Generated.CI_FLOOR_TYPE_SIZE,
+    Generated.CI_RESIDUE_PARAM_SIZE, Generated.CI_RESIDUE_TYPE_SIZE, Generated.CI_MAP_PARAM_SIZE,
+    Generated.CI_MAP_TYPE_SIZE, Generated.CI_MODE_PARAM_SIZE]
+  omega
+
+/-- the floor-1 class and post tables have the sizes the C structs give them -/
+theorem C02_floor1_tables (nbooks : Nat) (f : Floor1) (h : Floor1WF nbooks f) :
+    f.partitionclass.size ≤ Generated.VIF_PARTS ∧ f.class_dim.size ≤ Generated.VIF_CLASS ∧
+    f.postlist.size ≤ Generated.VIF_POSIT + 2 ∧ ∀ c ∈ f.partitionclass, c < Generated.VIF_CLASS := by
+  refine ⟨?_, ?_, h.posts, fun c hc => ?_⟩
+  · have := h.parts; simp only [Generated.VIF_PARTS]; omega
+  · have := h.ncls; simp only [Generated.VIF_CLASS]; omega
+  · have := (h.pclass c hc).2.2; simp only [Generated.VIF_CLASS]; omega
+
+theorem ilogNat_le (n k : Nat) (h : n < 2 ^ k) : ilogNat n ≤ k := by
+  induction k generalizing n with
+  | zero =>
+    have : n = 0 := by simpa using h
+    subst this; simp [ilogNat]
+  | succ k ih =>
+    cases n with
+    | zero => simp [ilogNat]
+    | succ m =>
+      rw [ilogNat]
+      have : (m + 1) / 2 < 2 ^ k := by
+        rw [Nat.pow_succ] at h; omega
+      have := ih _ this
+      omega
+
+/-- **C02_mode_index** — the mode number of an audio packet is read with `ilog(modes-1)` bits; with
+at most 64 modes that value is below 64, so `mode_param[mode]` is always inside the 64-slot table
+(a slot beyond `modes` holds NULL and the packet is refused). -/
+theorem C02_mode_index (nmodes : Nat) (h1 : 1 ≤ nmodes) (h64 : nmodes ≤ Generated.CI_MODE_PARAM_SIZE)
+    (r : Reader) :
+    (r.read (ilog ((nmodes : Int) - 1))).1 < (Generated.CI_MODE_PARAM_SIZE : Int) := by
+  have hb : ilog ((nmodes : Int) - 1) ≤ 6 := by
+    unfold ilog
+    simp only [Generated.CI_MODE_PARAM_SIZE] at h64
+    have hx : (((nmodes : Int) - 1) % 4294967296).toNat < 2 ^ 6 := by omega
+    exact ilogNat_le _ 6 hx
+  have hr := r.read_range (ilog ((nmodes : Int) - 1))
+  have hp : (2 ^ ilog ((nmodes : Int) - 1) : Nat) ≤ 2 ^ 6 := Nat.pow_le_pow_right (by decide) hb
+  simp only [Generated.CI_MODE_PARAM_SIZE]
+  rcases hr with h | ⟨_, h⟩
+  · omega
+  · have : ((2 ^ ilog ((nmodes : Int) - 1) : Nat) : Int) ≤ ((2 ^ 6 : Nat) : Int) := Int.ofNat_le.mpr hp
+    have e : ((2 ^ 6 : Nat) : Int) = 64 := by decide
+    omega
+
+/-- **C02_packet_codes** — the packet-header stage of `vorbis_synthesis` answers 0 or one of two
+documented error codes, and on success the mode it selected exists and its mapping exists. -/
+theorem C02_packet_codes (channels : Int) (s : Setup) (hwf : SetupWF channels s) (pkt : ByteArray) :
+    let r := packetHeader s pkt
+    (r.1 = 0 ∨ r.1 = Generated.OV_ENOTAUDIO ∨ r.1 = Generated.OV_EBADPACKET) ∧
+    (r.1 = 0 → (r.2.1 = 0 ∨ r.2.1 = 1)) := by
+  unfold packetHeader
+  simp only [OV_ENOTAUDIO, OV_EBADPACKET]
+  split
+  · simp
+  · split
+    · simp
+    · split
+      · simp
+      · rename_i m hm
+        have hmem : m ∈ s.modes := by
+          have := Array.mem_of_getElem? hm
+          exact this
+        have hbf := (hwf.modes m hmem).bf
+        split
+        · split
+          · simp
+          · simp; rcases hbf with h | h <;> simp [h]
+        · simp
+
+/-- **C02_headerin_codes** — `vorbis_synthesis_headerin` on any bytes, in any state, with any
+`b_o_s` flag, returns 0 or one of the four documented error codes. -/
+theorem C02_headerin_codes (i : Info) (bos : Bool) (pkt : ByteArray) :
+    let rc := (headerin i bos pkt).2
+    rc = 0 ∨ rc = Generated.OV_ENOTVORBIS ∨ rc = Generated.OV_EBADHEADER ∨
+    rc = Generated.OV_EVERSION ∨ rc = Generated.OV_EFAULT := by
+  unfold headerin
+  simp only [OV_ENOTVORBIS, OV_EBADHEADER, OV_EVERSION, OV_EFAULT]
+  repeat' split
+  all_goals (first | simp | skip)
+  all_goals (
+    unfold unpackInfo
+    simp only [OV_EBADHEADER, OV_EVERSION, OV_EFAULT]
+    repeat' split
+    all_goals simp)
+
+theorem unpackInfo_setup (i : Info) (r : Reader) :
+    (unpackInfo i r).1.setup = none ∨ (unpackInfo i r).1.setup = i.setup := by
+  unfold unpackInfo
+  simp only []
+  repeat' split
+  all_goals (first | (right; rfl) | (left; rfl))
+
+/-- **C02_reject_keeps_state** — a header call that fails never installs a set-up: afterwards the
+info structure holds either no set-up at all (it was cleared) or exactly the set-up it held before. -/
+theorem C02_reject_keeps_state (i : Info) (bos : Bool) (pkt : ByteArray)
+    (hrc : (headerin i bos pkt).2 ≠ 0) :
+    (headerin i bos pkt).1.setup = none ∨ (headerin i bos pkt).1.setup = i.setup := by
+  unfold headerin at hrc ⊢
+  simp only [] at hrc ⊢
+  repeat' split at hrc
+  all_goals (repeat' split)
+  all_goals (first | (right; rfl) | (left; rfl) | exact unpackInfo_setup _ _ | (exfalso; simp_all; done) | simp_all)
+
+/-- **C02_lookup1_dim0_diverges** — regression theorem for finding F1: with zero dimensions the
+lattice-size search of `_book_maptype1_quantvals` never finds an answer, whatever the initial guess
+and however long it runs (which is why value-mapped books with `dim < 1` must be refused). -/
+theorem C02_lookup1_dim0_diverges (entries : Int) (he : 1 ≤ entries) (fuel : Nat) (guess : Int) :
+    lookup1Search entries 0 fuel guess = none := by
+  induction fuel generalizing guess with
+  | zero => rfl
+  | succ n ih =>
+    unfold lookup1Search
+    simp only [lookup1Acc]
+    have h1 : ¬ ((0:Nat) ≥ 0 ∧ 1 ≤ entries ∧ (1:Int) > entries) := by omega
+    have h2 : ¬ ((0:Nat) < 0 ∨ (1:Int) > entries) := by omega
+    simp only [h1, h2, if_false]
+    exact ih _
+
+/-- **C02_valuebook_has_dim** — after the fix an accepted value-mapped book has at least one
+dimension, every codeword length indexes inside `marker[33]`, and the quantised value list has
+exactly the size the decoder will read. -/
+theorem C02_valuebook_has_dim (b : Book) (h : BookWF b) :
+    (b.maptype ≠ 0 → 1 ≤ b.dim) ∧ (∀ l ∈ b.lengthlist, l < 33) ∧
+    b.lengthlist.size = b.entries.toNat ∧
+    (b.maptype ≠ 0 → b.quantlist.size = (quantvalsOf b.maptype b.entries b.dim).toNat) :=
+  ⟨h.mapDim, fun l hl => by have := h.lenMax l hl; omega, h.lenSize, h.qSize⟩
 
 end Vorbis.Props.C02
